@@ -1058,7 +1058,15 @@ func (g *anGen) simpleAtom() *anAtom {
 			if len(g.tokens) > 0 {
 				t := Pick(g.r, g.tokens)
 				if a, ok := aliasOf(t); ok && g.aliasCount(a) == 1 && anSafeAlias(t.Expr[0][0].Lit) {
-					return &anAtom{Kind: 'A', Lit: t.Expr[0][0].Lit}
+					// the same text, possibly spelled with other escapes
+					var ps []anPiece
+					for _, c := range a {
+						ps = append(ps, anRunePiece(g.r, c))
+					}
+					if string(piecesVal(ps)) != a {
+						ps = t.Expr[0][0].Lit
+					}
+					return &anAtom{Kind: 'A', Lit: ps}
 				}
 			}
 		case 4, 5:
@@ -1901,7 +1909,12 @@ var anFaults = []anFault{
 			return nil, false
 		}
 		pr := Pick(g.r, g.rules)
-		pr.Name = pr.Name + "__" + Pick(g.r, []string{"x", "", "_y"})
+		switch g.r.Intn(4) {
+		case 0:
+			pr.Name = Pick(g.r, []string{"EOF", "ERROR"}) // reserved for rules as well
+		default:
+			pr.Name = pr.Name + "__" + Pick(g.r, []string{"x", "", "_y"})
+		}
 		return []anDecl{pr}, true
 	}},
 	{"list-param-not-simple", func(g *anGen) ([]anDecl, bool) {
